@@ -564,6 +564,10 @@ impl Triple {
         v.push(Op::Disable);
         v.push(Op::Resize(m.h, m.w));
         v.push(Op::Resize(m.h - 1, m.w));
+        // a large shrink (half the rows): whatever is kept per row must not depend on how many rows were dropped
+        if m.h >= 4 {
+            v.push(Op::Resize(m.h / 2, m.w));
+        }
         if m.nd > 0 && fd >= 1 {
             v.push(Op::Resize(m.h, fd));
             if fd >= 2 {
